@@ -32,6 +32,7 @@ if [ $CLEAN -ne 0 ] || [ $TESTS -ne 0 ] || [ $MUT -eq 0 ]; then echo "SEED NOT C
 unset CARGO_TARGET_DIR
 echo "== confirmed; running checks against /repo with the patch"
 cd /verif
+rm -rf /verif/.evidence.keep; cp -r /verif/evidence /verif/.evidence.keep
 git -C /repo apply "$S/patch.diff" || { echo "patch does not apply to /repo"; exit 2; }
 RES=""
 for c in $CHECKS; do
@@ -41,6 +42,7 @@ for c in $CHECKS; do
   RES="$RES{\"check\":\"$c\",\"tier\":\"quick\",\"exit\":$rc,\"signature\":\"$sig\"},"
 done
 git -C /repo checkout -- .
+rm -rf /verif/evidence; mv /verif/.evidence.keep /verif/evidence
 git -C /repo status --short | head -3
 mkdir -p "$OUT"
 cp "$S/patch.diff" "$OUT/patch.diff"; [ -f "$S/demo.rs" ] && cp "$S/demo.rs" "$OUT/demo.rs"; [ -f "$S/demo.sh" ] && cp "$S/demo.sh" "$OUT/demo.sh"
